@@ -78,6 +78,12 @@ CHECKS = {
  "C23": ("exploration", "run-time monitor: every blocker of every why-not reply re-evaluated against the reference model, over all candidate tuples of the value domain",
          "held on every candidate tuple of the run apart from the listed known findings (derived data invisible to why-not, no backtracking, computed columns): underivable tuples get a true blocker for every clause, derivable tuples are never fully blocked",
          "trusted: reference model; blockers read from the structured WhyNot nodes of the reply", "3/C23"),
+ "C24": ("exploration", "model-based run-time monitor: history model + brute force with exact metric distances checked after every index operation",
+         "held on every search of the run apart from the listed known findings (the approximate graph misses live vectors even when ef >= live): <= k distinct live ids, non-decreasing exact distances; the exact-k-nearest clause is a known finding",
+         "trusted: the crate's vector_ops distances (C26), the history model", "3/C24"),
+ "C25": ("exploration", "model-based run-time monitor: index state (ids via exhaustive search, latest vectors, len, dimension, tombstone count, config) vs history model after every operation incl. save/load",
+         "held on every history of the run apart from the listed known finding (exhaustive search does not reach every live id): no deleted/unknown id visible, latest vectors stored, len/dimension/tombstone_count/config as implied, across save/load",
+         "trusted: the history model incl. the documented 30% auto-compaction policy", "3/C25"),
 }
 NOT_YET = "monitor not built yet in this round (design in DESIGN.md section 3); not claimed until a check exists"
 
